@@ -35,6 +35,11 @@ def report_core_disagreements(ctx, cases, dis, in_scope=lambda case, d: True, kn
         if d["layer"] in ("DRIVER",):
             ctx.corr_break(d["layer"], rep)
             continue
+        if d["layer"] == "CORR-GEN" and str(d.get("go")).startswith("("):
+            # both sides accept the program and emit different code: the tie to the generator model is broken, but that alone is no failing input of a
+            # property about results - the same case is also run end to end and on the implementation's own bytecode (CORR-E2E / CORR-VM), which decide
+            ctx.corr_break(d["layer"], rep)
+            continue
         if case is not None and in_scope(case, d):
             ctx.violation("%s: implementation and proved model differ on an in-scope input" % d["layer"], rep)
         else:
@@ -50,3 +55,25 @@ def known_core(case, d):
     if "integer divide by zero" in g and "divzero" in str(d.get("model")):
         return DIVZERO
     return None
+
+
+# byte strings that are not text: truncated and stray UTF-8 sequences at every distance from the end (held as latin-1 str, like every text here)
+HOSTILE_TAILS = ["caf\xc3\xa9", "caf\xc3", "ab\xe2\x82\xac", "ab\xe2\x82", "ab\xe2", "\xf0\x9f\x98\x80x", "\xf0\x9f\x98", "\xf0\x9f", "\xf0", "\xff", "b\xff", "\xffab",
+                 "a\xa9", "\xc3z", "a\xc3bc", "\xc3\xa9\xc3", "a\x80\x80", "\xe2\x82\xac\xe2\x82", "1\xc3", "a\n\xc3", " \xe2\x82"]
+
+
+def impl_only_runs(ctx, progs, texts, what, timeout_ms=10000):
+    """programs x byte texts on the implementation alone: whatever the bytes, Run must return (no panic, no hang).  Returns the number of runs."""
+    cases = [{"op": "e2e", "src_hex": vh.hexs(p), "texts_hex": [vh.hexs(t) for t in texts]} for p in progs]
+    res = vh.run_cases(cases, shards=8, timeout_ms=timeout_ms)
+    n = 0
+    for p, r in zip(progs, res):
+        if "err" in r and "matches_list" not in r and "panic" not in r:
+            continue
+        done = len(r.get("matches_list") or [])
+        n += done
+        if "panic" in r or r.get("hang") or r.get("oom") or r.get("fatal"):
+            t = texts[done] if done < len(texts) else None
+            ctx.violation("%s: Run %s on a byte string that is not well-formed text" % (what, "panics" if "panic" in r else "does not return"),
+                          {"source": p, "text_hex": vh.hexs(t) if t is not None else None, "outcome": str({k: v for k, v in r.items() if k in ("panic", "hang", "oom", "fatal")})[:400]})
+    return n
